@@ -66,6 +66,11 @@ Expect(c) ==
     [] c.op \in {"vinit_prio3", "vinit_prio2", "vinit_poplar1"} -> IF BigLt(c.aid, FromInt(c.nagg)) THEN "Ok" ELSE "Err"
     [] c.op \in {"s2m_prio3", "s2m_prio2", "s2m_poplar1"} -> IF c.count = c.nagg THEN "Ok" ELSE "Err"
     [] c.op = "vinit_poplar1_level" -> IF c.level < c.bits THEN "Ok" ELSE "Err"
+    \* an aggregation parameter is a non-empty, strictly increasing list of prefixes of one length 1..2^16 (level = length - 1 fits 16 bits);
+    \* c.shape describes the list built by the harness from prefixes of c.plen bits
+    [] c.op = "aggparam_new" -> IF c.plen >= 1 /\ c.plen <= 65536 /\ c.shape \in {"one", "two_sorted", "three_sorted"} THEN "Ok" ELSE "Err"
+    \* decoding BE16(level) . BE32(count) . count prefixes of ceil((level+1)/8) bytes (canonical, increasing), c.extra trailing/missing bytes
+    [] c.op = "aggparam_decode" -> IF c.level <= 65535 /\ c.count >= 1 /\ c.extra = 0 /\ c.sorted THEN "Ok" ELSE "Err"
     [] c.op \in {"agg_wrong_len", "unshard_wrong_len", "truncate_len", "decode_result_len"} -> IF c.got = c.want THEN "Ok" ELSE "Err"
     [] c.op = "wrong_role_share" -> "Either"
     [] c.op = "unshard_count" -> "Either"
